@@ -54,6 +54,8 @@ def check_input(s, ctx, acc, sub='be'):
         acc.count('strict_timeout')       # decided by C05
     else:
         acc.count('strict_rejected')
+    if st == 'ok':
+        return       # on strictly valid input the tolerant tree is the strict tree (C06 decides that)
     st, res = run_guarded(contexts.parse, s, ctx, True)
     if st == 'ok':
         lw, nodes = res
